@@ -304,7 +304,7 @@ def _binders(tree, where, resolve_in):
     return out
 
 
-def oracle(src, tr, tokens):
+def oracle(src, tr, tokens, resolvable=()):
     """binding key and category of every token; None when the module cannot be analysed"""
     idents = sorted({t.name for t in tokens} | {"len", "__init__"})
     py_scopes, tree = c15.observe_python(src, idents)
@@ -548,7 +548,7 @@ def oracle(src, tr, tokens):
         elif t.kind == "KImportMod" and stmt_at(t.line, (ast.ImportFrom,)) is not None:
             c = "import"
             s = stmt_at(t.line, (ast.ImportFrom,))
-            if s.module and "." not in s.module and s.module == t.name and not s.level:
+            if s.module and "." not in s.module and s.module == t.name and not s.level and s.module in resolvable:
                 k = ("ent", ("mod", 0, s.module))       # the module of an absolute `from m import ..`
         elif t.kind == "KImportMod":
             c = "import"
@@ -715,7 +715,7 @@ HEADER = ("From Coq Require Import List NArith Bool.\nImport ListNotations.\n"
 
 
 # ============================================================================ one module
-def observe(src, with_rope=True, fresh=False):
+def observe(src, with_rope=True, fresh=False, resolvable=()):
     tr = c15_gen.to_gallina(src)
     if tr is None:
         return None
@@ -728,7 +728,7 @@ def observe(src, with_rope=True, fresh=False):
     if with_rope:
         o.rope, o.stray = observe_rope(src, o.tokens, fresh=fresh)
         # offsets rope may report that are NAME tokens but not identifiers of the program (keywords): stray
-    o.key, o.cat, o.info = oracle(src, tr, o.tokens)
+    o.key, o.cat, o.info = oracle(src, tr, o.tokens, resolvable)
     # the scoping binding without import transparency (what the Coq SPEC computes): owner scope of the name
     o.varkey = scoping_keys(o)
     return o
@@ -808,14 +808,15 @@ def scoping_keys(o):
 LIBNAME = "lib.py"
 
 
-def observe_project(files):
-    """files: {path: source}. Returns {path: Observed} with .rope2[token id] = sorted [(path, token id)] | "EXC:.." and
+def observe_project(files, passes=1):
+    """passes=2: every query is asked twice and the second answer kept (a project that has already answered queries).
+    files: {path: source}. Returns {path: Observed} with .rope2[token id] = sorted [(path, token id)] | "EXC:.." and
     .stray2[token id] = [(path, offset)], all queries asked one after the other in one project."""
     from rope.base.project import Project
     from rope.contrib import findit
     obs = {}
     for path, src in files.items():
-        o = observe(src, with_rope=False)
+        o = observe(src, with_rope=False, resolvable=(LIBNAME[:-3],))
         if o is None:
             return None
         obs[path] = o
@@ -827,6 +828,14 @@ def observe_project(files):
         proj = Project(d, ropefolder=None)
         try:
             by_offset = {(path, t.offset): t.id for path, o in obs.items() for t in o.tokens}
+            for _pass in range(passes - 1):
+                for path, o in obs.items():
+                    res = proj.get_resource(path)
+                    for t in o.tokens:
+                        try:
+                            findit.find_occurrences(proj, res, t.offset)
+                        except Exception:  # noqa: BLE001
+                            pass
             for path, o in obs.items():
                 res = proj.get_resource(path)
                 o.rope2, o.stray2 = {}, {}
@@ -980,8 +989,8 @@ def observe_sequence(files_v1, lib_v2):
     from rope.contrib import findit
     final = dict(files_v1)
     final[LIBNAME] = lib_v2
-    obs1 = {p: observe(src, with_rope=False) for p, src in files_v1.items()}
-    obs = {p: observe(src, with_rope=False) for p, src in final.items()}
+    obs1 = {p: observe(src, with_rope=False, resolvable=(LIBNAME[:-3],)) for p, src in files_v1.items()}
+    obs = {p: observe(src, with_rope=False, resolvable=(LIBNAME[:-3],)) for p, src in final.items()}
     if any(o is None for o in list(obs1.values()) + list(obs.values())):
         return None
     d = tempfile.mkdtemp(prefix="ropeverif-c02-")
@@ -1022,3 +1031,84 @@ def observe_sequence(files_v1, lib_v2):
     finally:
         shutil.rmtree(d, ignore_errors=True)
     return obs
+
+
+# ============================================================================ two-module projects inside the Coq model
+HEADER2 = HEADER + "From RopeVerif.C02 Require Import Project ProjectRunner.\n"
+_OCC = re.compile(r"\(Occ (\d+)%N (K\w+) (\d+)%N\)")
+
+
+def enc(path, tid):
+    return 2 * tid + (1 if path == LIBNAME else 0)
+
+
+def project_programs(obs):
+    """(lib program term, main program term, intern function): both programs over ONE interning table"""
+    lib, main = obs[LIBNAME], obs[[p for p in obs if p != LIBNAME][0]]
+    table = list(lib.tr.idents)
+    index = {x: i for i, x in enumerate(table)}
+
+    def intern(x):
+        if x not in index:
+            index[x] = len(table)
+            table.append(x)
+        return index[x]
+
+    mapping = {i: intern(x) for i, x in enumerate(main.tr.idents)}
+    main_prog = _OCC.sub(lambda m: "(Occ %s%%N %s %d%%N)" % (m.group(1), m.group(2), mapping[int(m.group(3))]), main.tr.prog)
+    return lib.tr.prog, main_prog, intern
+
+
+def project_case_term(obs, keys):
+    """Gallina term of type ProjectRunner.case2: both programs over ONE interning table"""
+    lib, main = obs[LIBNAME], obs[[p for p in obs if p != LIBNAME][0]]
+    mainpath = [p for p in obs if p != LIBNAME][0]
+    table = list(lib.tr.idents)
+    index = {x: i for i, x in enumerate(table)}
+
+    def intern(x):
+        if x not in index:
+            index[x] = len(table)
+            table.append(x)
+        return index[x]
+
+    mapping = {i: intern(x) for i, x in enumerate(main.tr.idents)}
+    main_prog = _OCC.sub(lambda m: "(Occ %s%%N %s %d%%N)" % (m.group(1), m.group(2), mapping[int(m.group(3))]), main.tr.prog)
+    for x in ("len", "__init__", "__call__", "staticmethod", "classmethod", "property", LIBNAME[:-3]):
+        intern(x)
+    import builtins as _b
+    names = sorted({t.name for o in (lib, main) for t in o.tokens} | {"len", "__init__", "__call__", "staticmethod",
+                                                                        "classmethod", "property", LIBNAME[:-3]})
+    gi = lambda xs: "[" + "; ".join("%d%%N" % intern(x) for x in xs) + "]"
+    bi = [x for x in names if x in set(dir(_b))]
+    # tokens outside the model: an imported name of lib that has a homonym bound on the same line in lib
+    lines = {}
+    for t in lib.tokens:
+        if t.kind in ("KStore", "KParam", "KDefName", "KClassName", "KExceptName", "KAlias", "KImportName"):
+            lines.setdefault(keys[(LIBNAME, t.id)], set()).add(t.line)
+    clash = set()
+    ks = [k for k in lines if isinstance(k, tuple) and len(k) == 3]
+    for k1 in ks:
+        for k2 in ks:
+            if k1 != k2 and k1[2] == k2[2] and lines[k1] & lines[k2]:
+                clash.add(k1[2])
+    # ... and only when the importing module really imports that name from lib (the import clause of same_pyname is
+    # what compares definition locations by line)
+    imported = set()
+    for n in ast.walk(main.info.tree):
+        if isinstance(n, ast.ImportFrom) and not n.level and n.module == LIBNAME[:-3]:
+            imported |= {a.name for a in n.names}
+    clash &= imported
+    skip = [enc(pth, t.id) for pth, o in obs.items() for t in o.tokens if t.name in clash or t.id in o.skip]
+    rope = []
+    for pth, o in obs.items():
+        for t in o.tokens:
+            r = o.rope2[t.id]
+            ans = "[999999%N]" if isinstance(r, str) else "[" + "; ".join("%d%%N" % enc(m, i) for (m, i) in r) + "]"
+            rope.append("(%d%%N, %s)" % (enc(pth, t.id), ans))
+    nl = lambda xs: "[" + "; ".join("%d%%N" % i for i in sorted(xs)) + "]"
+    return ("{| p_lib := %s;\n p_main := %s;\n p_builtins := %s; p_idents := %s;\n p_init := %d%%N; p_call := %d%%N; "
+            "p_odd := %s; p_prop := %d%%N; p_libname := %d%%N;\n p_kw_lib := %s; p_kw_main := %s; p_skip := %s;\n p_rope := %s |}"
+            % (lib.tr.prog, main_prog, gi(bi), gi(names), intern("__init__"), intern("__call__"),
+               gi(["staticmethod", "classmethod"]), intern("property"), intern(LIBNAME[:-3]),
+               nl(lib.kwlike), nl(main.kwlike), nl(skip), "[" + "; ".join(rope) + "]"))
